@@ -5988,12 +5988,15 @@ class PyCdlib:
         else:
             if rec.parent is None:
                 return '/'
-            if rec.file_ident is not None:
-                encoding = rec.file_ident.encoding
-            else:
-                encoding = 'utf-8'
             udf_rec = rec  # type: Optional[udfmod.UDFFileEntry]
             while udf_rec is not None:
+                # Every UDF File Identifier carries its own encoding (8 or 16
+                # bits per character), so each component is decoded with the
+                # encoding of the identifier it comes from.
+                if udf_rec.file_ident is not None:
+                    encoding = udf_rec.file_ident.encoding
+                else:
+                    encoding = 'utf-8'
                 ident = udf_rec.file_identifier()
                 if ident == b'/':
                     name = b''
